@@ -6,6 +6,7 @@
 -/
 import Stevia.Generated.Facts
 import Stevia.Proofs.ArraySetState
+import Stevia.Proofs.GenASetRefine
 
 namespace Stevia.C05
 open Stevia
@@ -46,5 +47,24 @@ theorem model_never_out_of_bounds {key : α → κ} {P : Nat} {s : ASet α} (h :
     ∃ s' o, s.opStep key P op = .ok (s', o) ∧ s'.Inv key P ∧ s'.slots = s.slots := by
   obtain ⟨s', h1, h2, _, h4⟩ := ASet.opStep_refines h op
   exact ⟨s', _, h1, h2, h4⟩
+
+/-- Tie through the translator: in the *translated* `insert` and `take` (`Stevia.GenA.*`, regenerated from
+    `array_set.rs` on every run; `ptr::copy` is `copyWithin`, which fails exactly when a range leaves the values slice,
+    and every `self.values[i]` is a checked access) nothing fails on a well-formed set — no raw copy and no index
+    leaves the slice — and the slot count is unchanged. -/
+theorem translated_copies_stay_inside {key : α → κ} {P : Nat} {s : ASet α} (h : s.Inv key P) (x : α) :
+    (∃ s' r, GenA.insert key P s x = some (s', r) ∧ s'.slots = s.slots) ∧
+    (∃ s' r, GenA.take key P s x = some (s', r) ∧ s'.slots = s.slots) := by
+  constructor
+  · obtain ⟨s', r, h1, h2, _⟩ := GenA.insert_refines h x
+    refine ⟨s', r, h1, ?_⟩
+    rcases ASet.insert_spec h x with ⟨_, h3⟩ | ⟨_, _, s'', h3, _, _, h6⟩
+    · rw [h3] at h2; cases h2; rfl
+    · rw [h3] at h2; cases h2; exact h6.1
+  · obtain ⟨s', r, h1, h2, _⟩ := GenA.take_refines h x
+    refine ⟨s', r, h1, ?_⟩
+    rcases ASet.take_spec h (key x) with ⟨_, h3⟩ | ⟨y, s'', _, h3, _, _, h6, _⟩
+    · rw [h3] at h2; cases h2; rfl
+    · rw [h3] at h2; cases h2; exact h6
 
 end Stevia.C05
